@@ -151,7 +151,7 @@ pub fn utf8_8() {
 /// 1029 decoder: the byte-count field k (<= 4) followed by k symbolic bytes: Ok => the bytes are
 /// well-formed UTF-8 and come back unchanged; not well formed => Err (-> Corrupt).
 #[kani::proof]
-#[kani::unwind(258)]
+#[kani::unwind(132)]
 #[kani::stub(core::str::from_utf8, crate::util::from_utf8_ref)]
 pub fn msg1029_decode() {
     use rtcm_rs::verif_hooks::dfs::df_msg1029_utf8_str as d;
@@ -189,7 +189,7 @@ pub fn msg1029_decode() {
 /// 1029 encoder: text of more than 127 characters is refused; within limits the counts on the wire
 /// are the character and byte counts (ASCII text of symbolic length up to 130).
 #[kani::proof]
-#[kani::unwind(258)]
+#[kani::unwind(132)]
 #[kani::stub(core::str::from_utf8, crate::util::from_utf8_ref)]
 pub fn msg1029_encode_limits() {
     use rtcm_rs::verif_hooks::dfs::df_msg1029_utf8_str as d;
